@@ -133,6 +133,13 @@ def apply_mutation(ex, step, root, pool, mut, fresh):
     elif mut == "remove_first":
         if n:
             root.children.remove(root.children[0])
+    elif mut == "map_twin":          # replace the value under its key by an EQUAL but distinct object (value-based __eq__)
+        if "a" in root.mapping:
+            old = root.mapping["a"]
+            old.eqkey = "tw"
+            x = fresh()
+            x.eqkey = "tw"
+            root.mapping["a"] = x
     elif mut == "map_same":          # re-assign the identical object under its key
         if "a" in root.mapping:
             root.mapping["a"] = root.mapping["a"]
